@@ -125,6 +125,7 @@ for _pid in FROM_PROPOSED:
     _m = json.load(open(os.path.join(V, 'proposed', _pid.lower(), 'manifest.json')))
     CHECKS[_pid] = dict(category=_m.get('category', 'other'), design_ref='DESIGN.md 5/%s' % _pid,
                         technique=_m['technique'], text=_m['text'], note=_m['note'])
+ENGINE = {'C01': 'shape', 'C17': 'gf2', 'C20': 'lockflow', 'C09': 'wire', 'C06': 'printf-sx', 'C13': 'printf-sx'}
 NA_REASON = 'check not built yet (work in progress; see DESIGN.md section 9)'
 
 m = {"version": 1,
@@ -135,10 +136,26 @@ m = {"version": 1,
                "source_commits": [], "add_only": True},
      "engines": [
         {"name": "irdump", "path": "tools/irdump.cc", "serves_properties": sorted(CHECKS),
-         "kind_free_text": "LLVM IR -> JSON front end (clang -O0 + mem2reg/simplifycfg), rebuilt from /repo on every run"},
-        {"name": "absint", "path": "checks/absint.py", "serves_properties": sorted(CHECKS),
-         "kind_free_text": "abstract interpreter: linear forms + inequality sets, Fourier-Motzkin entailment, template loop invariants, contracts"},
+         "kind_free_text": "LLVM IR -> JSON front end (clang -O0 + mem2reg/simplifycfg, optional selective inlining / unrolling), rebuilt from /repo on every run"},
+        {"name": "absint", "path": "checks/absint.py", "serves_properties": sorted(set(CHECKS) - {'C01'}),
+         "kind_free_text": "abstract interpreter over LLVM IR: linear forms + inequality sets, Fourier-Motzkin entailment, template loop invariants, contracts (checks/contracts.py, lin.py, absval.py)"},
+        {"name": "shape", "path": "checks/shape.py", "serves_properties": [x for x in ('C01', 'C10') if x in CHECKS],
+         "kind_free_text": "symbolic-heap shape analysis of list/pool primitives over all footprint configurations (rings with opaque gaps)"},
+        {"name": "gf2", "path": "checks/gf2.py", "serves_properties": [x for x in ('C17', 'C18') if x in CHECKS],
+         "kind_free_text": "GF(2)-affine bit-vector domain: exact transformers of unrolled bit-level code"},
+        {"name": "life", "path": "checks/life_core.py", "serves_properties": [x for x in ('C02', 'C14') if x in CHECKS],
+         "kind_free_text": "slot typestate (RAW/LIVE) and block ownership by trace partitioning on small sizes"},
+        {"name": "lockflow", "path": "checks/c20_lockflow.py", "serves_properties": [x for x in ('C20', 'C16') if x in CHECKS],
+         "kind_free_text": "lockset dataflow over IR CFGs (lock depth per path, guarded accesses)"},
+        {"name": "wire", "path": "checks/c09_wire.py", "serves_properties": [x for x in ('C09',) if x in CHECKS],
+         "kind_free_text": "wire-grammar extraction from resolved serialize/deserialize call trees"},
+        {"name": "printf-sx", "path": "checks/c06_sx.py", "serves_properties": [x for x in ('C06', 'C13') if x in CHECKS],
+         "kind_free_text": "path-wise symbolic extraction of the emission sequence of the printf engine (abstract interpretation with symbolic counts)"},
      ],
+     "notes": "Genuine defects: known_findings.json (status fixed = repaired by the named fix: commit in /repo; status known = "
+              "reported as KNOWN-FINDING). Seeded changes that the checks must report: seeded/<id>/ (regression: "
+              "tools/seedall.py). Behaviour-preserving refactorings on which the checks must stay silent: refactors/<ids>/ "
+              "(regression: tools/refall.py). DESIGN.md describes the approach; FRAMEWORK.md is the developer guide.",
      "checks": [], "not_applicable": []}
 for p in props:
     pid = p['id']
@@ -152,7 +169,7 @@ for p in props:
         "thorough_cmd": "python3 checks/run.py %s --tier thorough" % pid,
         "evidence_file": "evidence/%s.json" % pid,
         "replay_cmd_template": "python3 checks/run.py %s --replay {path}" % pid,
-        "engine": "absint",
+        "engine": ENGINE.get(pid, "absint"),
         "level_claimed": {"category": c['category'], "text": c['text'], "design_ref": c['design_ref']},
         "level_note": c['note'],
         "technique": c['technique']})
